@@ -1,9 +1,22 @@
-(** C07 (stage A): obligations on the translated data; see Inst/Linked.v. *)
-From RV Require Import Model.Base Model.Spirv Model.Grammar Model.Reflect Model.Loader.
-From RV Require Import Gen.SpirvData Gen.LoaderData Inst.Linked.
+(** C07 (stage A): the disassembler's vocabulary, translated from the source
+    on this run, is the specification's and is injective per operand kind. *)
+From RV Require Import Model.Base Model.Spirv.
+From RV Require Import Gen.SpirvData Gen.DisasData Inst.C07_inst.
+From RV Require Gen.RefDisas.
 
-Theorem C07_loader_arms_link :
-  link_larms op_enum loader_arms_raw = Some loader_arms /\ loader_translation_failures = [].
-Proof. exact (conj loader_arms_link loader_translated_completely). Qed.
+Theorem C07_masks_and_enumerants_by_specification_names :
+  list_eqb (pair_eqb str_eqb ss_list_eqb) mask_names RefDisas.mask_names = true /\
+  ss_list_eqb display_arms RefDisas.display_arms = true.
+Proof. exact (conj mask_names_match_ref display_arms_match_ref). Qed.
 
-Print Assumptions C07_loader_arms_link.
+Theorem C07_every_mask_kind_rendered_by_name :
+  forallb (fun F => mem_str (f_name F) (map fst mask_names) && mem_str (f_name F) dispatch) flags = true
+  /\ id_arm = true /\ fallback_arm = true.
+Proof. exact every_mask_rendered_by_name. Qed.
+
+Theorem C07_mask_tables_complete_and_injective : forallb table_ok flags = true.
+Proof. exact mask_tables_complete. Qed.
+
+Print Assumptions C07_masks_and_enumerants_by_specification_names.
+Print Assumptions C07_every_mask_kind_rendered_by_name.
+Print Assumptions C07_mask_tables_complete_and_injective.
